@@ -726,7 +726,7 @@ Proof.
     (destruct (o_only_delimited o) eqn:E9; [discriminate|]); cbn [orb];
     (destruct (forward_bounds_ok (items (o_bounds o))); [|discriminate]);
     intros H; injection H as <-; cbn [s_delim s_repl s_join s_fallback s_items s_lif s_eol];
-    unfold sdelim, rep_of, plain_opts; cbn [s_repl s_delim]; rewrite ?E6, ?Ed;
+    unfold sdelim, rep_of, plain_opts; cbn [s_repl s_delim]; rewrite ?E6, ?Ed, ?E5;
     repeat split; try reflexivity; assumption.
 Qed.
 
